@@ -259,7 +259,7 @@ func runC05(r *ev.Run) {
 					}
 				}
 			}
-			for _, attack := range []string{"foreign-initiates", "foreign-answers-rekey", "foreign-answers-rekey-with-data"} {
+			for _, attack := range []string{"foreign-initiates", "foreign-answers-rekey", "foreign-answers-rekey-with-data", "foreign-initiates-after-lapse", "foreign-answers-rekey-after-lapse"} {
 				for _, fk := range []string{"rejected-key", "other-accepted-key"} {
 					idx++
 					cg := g.Fork()
@@ -481,15 +481,27 @@ func c05Bound(r *ev.Run, g *rng.R, caseID string, pd predSpec, attack, fk string
 }
 
 func c05BoundAs(r *ev.Run, g *rng.R, caseID string, pd predSpec, attack, fk string, okKey, foreign testKey, prop string) {
+	// "-after-lapse": the session with K is left idle until it has lapsed (keep-alive of 120 ms, the rekey timer far away) and
+	// the channel has noticed (a Send that gets no answer) before the foreign key tries: "once a channel has established a
+	// session with some key, every later session on that channel is with the same key" does not end with the session.
+	fullAttack := attack
+	lapse := strings.HasSuffix(attack, "-after-lapse")
+	attack = strings.TrimSuffix(attack, "-after-lapse")
 	tm := slowTimings()
-	if attack != "foreign-initiates" {
+	if attack != "foreign-initiates" && !lapse {
 		tm.RekeyAfterTime = 120 * time.Millisecond
 		tm.RejectAfterTime = 5 * time.Second
 		tm.KeepAliveTimeout = 5 * time.Second
 	}
-	w := &c05World{r: r, caseID: caseID, pred: pd, sessKeys: map[uint64]x509.PublicKey{}, shape: "bound/" + attack + "/" + fk, prop: prop}
+	if lapse {
+		tm.KeepAliveTimeout = 120 * time.Millisecond
+	}
+	w := &c05World{r: r, caseID: caseID, pred: pd, sessKeys: map[uint64]x509.PublicKey{}, shape: "bound/" + fullAttack + "/" + fk, prop: prop}
 	w.V = newCapEnd("V", keyN(30), pd.fn, tm)
 	ptm := slowTimings()
+	if lapse {
+		ptm.KeepAliveTimeout = 120 * time.Millisecond
+	}
 	w.P = newCapEnd("P", okKey, func(*x509.PublicKey) bool { return true }, ptm)
 	defer w.V.ch.Close()
 	defer w.P.ch.Close()
@@ -507,6 +519,21 @@ func c05BoundAs(r *ev.Run, g *rng.R, caseID string, pd predSpec, attack, fk stri
 	if w.bound == nil || !x509.EqualPublicKeys(w.bound, &okKey.Pub) {
 		w.fail("C05/not-bound-after-establishment", "after establishing with K the channel does not report K as its remote key", nil)
 		return
+	}
+	if lapse {
+		time.Sleep(320 * time.Millisecond)
+		w.V.take()
+		w.P.take()
+		if attack == "foreign-initiates" {
+			// the channel notices the lapse when it is asked to send; nobody answers
+			w.vSend([]byte("into-the-void-"+caseID), 40*time.Millisecond, func() {})
+			w.V.take()
+			w.checkV("send after lapse, unanswered")
+		} else {
+			sctx, scf := context.WithTimeout(context.Background(), 2*time.Second)
+			defer scf()
+			go w.V.ch.Send(sctx, p2p.IOVec{[]byte("after-lapse-" + caseID)})
+		}
 	}
 	reached := false
 	m := newRawPeer(foreign, attack == "foreign-initiates")
@@ -589,6 +616,14 @@ func c05BoundAs(r *ev.Run, g *rng.R, caseID string, pd predSpec, attack, fk stri
 				w.P.deliver(x)
 			}
 		}
+	}
+	if lapse {
+		// no session is established any more: whether the channel comes back up with P is C07's business
+		w.checkV("end")
+		if reached && !w.failed {
+			r.NonTrivial(fmt.Sprintf("%s/%s/%s", pd.name, fullAttack, fk))
+		}
+		return
 	}
 	// the established session must be undisturbed: traffic with P still flows both ways, under K
 	ok := false
